@@ -19,15 +19,25 @@ Proof.
   apply andb_true_iff in H. destruct H as [H1 H2]. f_equal; [apply val_eqb_eq; exact H1|apply IH; exact H2].
 Qed.
 
-Lemma shows_no_vals t i : no_vals i = true -> shows t i = true.
+Definition all_none (vals : list (option val)) : bool :=
+  forallb (fun v => match v with None => true | Some _ => false end) vals.
+Lemma shows_vals_none t id vals : all_none vals = true -> shows_vals t id vals = true.
 Proof.
-  unfold no_vals, shows. intros H. destruct (tbl_lookup t (i_id i)) as [r|]; [|exact H].
-  revert r. induction (i_vals i) as [|[v|] vs IH]; intros r; cbn in *; auto; [discriminate|].
+  unfold all_none, shows_vals. intros H. destruct (tbl_lookup t id) as [r|]; [|exact H].
+  revert r. induction vals as [|[v|] vs IH]; intros r; cbn in *; auto; [discriminate|].
   destruct r; apply IH; exact H.
 Qed.
+Lemma mask_none vals : forall p, all_none vals = true -> all_none (mask vals p) = true.
+Proof.
+  unfold all_none. induction vals as [|[v|] vs IH]; intros p H; cbn in *; try discriminate.
+  - destruct p; reflexivity.
+  - destruct p as [|[x|] p]; cbn; auto.
+Qed.
+Lemma shows_no_vals t i : no_vals i = true -> shows t i = true.
+Proof. intros H. unfold shows. apply shows_vals_none. apply mask_none. exact H. Qed.
 
 Lemma shows_same_row t t' i : tbl_lookup t' (i_id i) = tbl_lookup t (i_id i) -> shows t' i = shows t i.
-Proof. unfold shows. intros ->. reflexivity. Qed.
+Proof. unfold shows, shows_vals. intros ->. reflexivity. Qed.
 
 Lemma changed_false_lookup s id : changed s id = false -> tbl_lookup (view s Txn) id = tbl_lookup (committed s) id.
 Proof.
